@@ -7,6 +7,8 @@
    free of 0x00) appear exactly in the theorems that need them. *)
 From Coq Require Import List NArith ZArith.
 From SVC Require Import Base.Bytes gen.KeysGen Model.Ids Proofs.IdsProofs Proofs.KProofs.
+(* gap closing (audit C18): loaded here, imported where its theorems are restated (end of file) *)
+From SVC Require Proofs.GapC18.
 Import ListNotations.
 
 (* ------------------------------------------------------------------ *)
@@ -475,3 +477,231 @@ Theorem C18_K_owner_earned_scan_refuted :
       is_prefix (GetOwnerEarnedFeesSubspace o) (GetOwnerEarnedFeesKey o' d') /\ o <> o'.
 Proof. exact K_owner_earned_scan_refuted. Qed.
 Print Assumptions C18_K_owner_earned_scan_refuted.
+
+(* ================================================================== *)
+(* Gap closing (build/audit/C18.md): proofs in Proofs/GapC18.v, GapC18Order.v, GapC18Trace.v.
+   From here on the state-machine model is in scope; integer literals are in Z unless marked. *)
+From Coq Require Import Bool.
+From SVC Require Import Base.AMap Base.Res Base.Dec Model.Types Model.Pricing
+  Model.Handlers Model.EndBlock Model.Step Proofs.Inv Proofs.ReqLemmas Proofs.CtxOps
+  Proofs.StepSpecs_batch Proofs.GapC18.
+Open Scope Z_scope.
+
+(* ------------------------------------------------------------------ *)
+(* facet 8: one denom => earned-fee keys injective in the provider, all lengths *)
+
+Theorem C18_K_inj_earned_same_denom :
+  forall p p' d : bytes, GetEarnedFeesKey p d = GetEarnedFeesKey p' d -> p = p'.
+Proof. exact K_inj_earned_same_denom. Qed.
+Print Assumptions C18_K_inj_earned_same_denom.
+
+(* ------------------------------------------------------------------ *)
+(* facet 9: parse-back of scanned keys, as the keeper slices them.
+   [index_of x l] is bytes.Index(l, []byte{x}). *)
+
+(* binding.go:393-396: key[AddrLen+1:], split at the first 0x00 *)
+Theorem C18_K_parse_owner_binding :
+  forall o sn p : bytes,
+    length o = 20%nat -> zero_free sn ->
+    let k := skipn 21 (GetOwnerServiceBindingKey o sn p) in
+    exists i : nat, index_of 0%N k = Some i /\ firstn i k = sn /\ skipn (S i) k = p.
+Proof. exact K_parse_owner_binding. Qed.
+Print Assumptions C18_K_parse_owner_binding.
+
+Theorem C18_K_parse_owner_binding_gen :
+  forall o sn p : bytes,
+    zero_free sn ->
+    let k := skipn (S (length o)) (GetOwnerServiceBindingKey o sn p) in
+    index_of 0%N k = Some (length sn) /\ firstn (length sn) k = sn /\ skipn (S (length sn)) k = p.
+Proof. exact K_parse_owner_binding_gen. Qed.
+Print Assumptions C18_K_parse_owner_binding_gen.
+
+(* K5 again: an owner that is not 20 bytes long is parsed back wrongly *)
+Theorem C18_K_parse_owner_binding_refuted :
+  exists o sn p : bytes,
+    length o = 21%nat /\ zero_free sn /\
+    let k := skipn 21 (GetOwnerServiceBindingKey o sn p) in
+    exists i : nat, index_of 0%N k = Some i /\ (firstn i k <> sn \/ skipn (S i) k <> p).
+Proof. exact K_parse_owner_binding_refuted. Qed.
+Print Assumptions C18_K_parse_owner_binding_refuted.
+
+(* fees.go:171: key[AddrLen+1:] *)
+Theorem C18_K_parse_owner_provider :
+  forall o p : bytes, length o = 20%nat -> skipn 21 (GetOwnerProviderKey o p) = p.
+Proof. exact K_parse_owner_provider. Qed.
+Print Assumptions C18_K_parse_owner_provider.
+
+Theorem C18_K_parse_owner_provider_gen :
+  forall o p : bytes, skipn (S (length o)) (GetOwnerProviderKey o p) = p.
+Proof. exact K_parse_owner_provider_gen. Qed.
+Print Assumptions C18_K_parse_owner_provider_gen.
+
+(* fees.go:200 (repair D8): key[1 : len(key)-len(denom)] *)
+Theorem C18_K_parse_earned :
+  forall p d : bytes,
+    let k := GetEarnedFeesKey p d in
+    firstn (length k - length d - 1) (skipn 1 k) = p.
+Proof. exact K_parse_earned. Qed.
+Print Assumptions C18_K_parse_earned.
+
+(* key[1:] *)
+Theorem C18_K_parse_tail_withdraw_addr :
+  forall o : bytes, skipn 1 (GetWithdrawAddrKey o) = o.
+Proof. exact K_parse_tail_withdraw_addr. Qed.
+Print Assumptions C18_K_parse_tail_withdraw_addr.
+
+Theorem C18_K_parse_tail_request_context :
+  forall c : bytes, skipn 1 (GetRequestContextKey c) = c.
+Proof. exact K_parse_tail_request_context. Qed.
+Print Assumptions C18_K_parse_tail_request_context.
+
+Theorem C18_K_parse_tail_request :
+  forall r : bytes, skipn 1 (GetRequestKey r) = r.
+Proof. exact K_parse_tail_request. Qed.
+Print Assumptions C18_K_parse_tail_request.
+
+Theorem C18_K_parse_tail_response :
+  forall r : bytes, skipn 1 (GetResponseKey r) = r.
+Proof. exact K_parse_tail_response. Qed.
+Print Assumptions C18_K_parse_tail_response.
+
+Theorem C18_K_parse_tail_active_by_id :
+  forall r : bytes, skipn 1 (GetActiveRequestKeyByID r) = r.
+Proof. exact K_parse_tail_active_by_id. Qed.
+Print Assumptions C18_K_parse_tail_active_by_id.
+
+(* a key found by the (context, batch) scan parses back to the id it was built from *)
+Theorem C18_K_parse_request_scan :
+  forall (c : bytes) (b : N) (h i : Z),
+    length c = 40%nat -> is_uint64 b -> is_int64 h -> is_int16 i ->
+    let k := GetRequestKey (gen_request_id c b h i) in
+    is_prefix (GetRequestSubspaceByReqCtx c b) k
+    /\ split_request_id (skipn 1 k) = Some (c, b, h, i).
+Proof. exact K_parse_request_scan. Qed.
+Print Assumptions C18_K_parse_request_scan.
+
+(* ------------------------------------------------------------------ *)
+(* facet 5: the position of a request in its batch's issue event is the index in its id.
+   The model logs one EvIssue per request, newest first, then one EvBatchStart
+   (Go: one new_batch_request event carrying the requests in provider order). *)
+
+Theorem C18_issue_all_log :
+  forall (s : State) (c : CtxId) (rc : Ctx) (n i : Z) (provs : list Z),
+    log (issue_all s c rc n i provs) =
+      rev (map (fun jp : nat * Z =>
+                  EvIssue (c, n, height s, i + Z.of_nat (fst jp)) (snd jp) (c_cons rc)
+                    (fee_of s rc (snd jp)))
+             (combine (seq 0 (length provs)) provs)) ++ log s.
+Proof. exact issue_all_log. Qed.
+Print Assumptions C18_issue_all_log.
+
+Theorem C18_initiate_requests_event_index :
+  forall (s : State) (c : CtxId) (provs : list Z),
+    let rc := ctx_or_zero s c in
+    let n := c_counter rc + 1 in
+    exists evs : list Event,
+      log (initiate_requests s c provs) = EvBatchStart c n (height s) (len provs) :: evs ++ log s
+      /\ length evs = length provs
+      /\ forall (k : nat) (p : Z), nth_error provs k = Some p ->
+           nth_error (rev evs) k
+             = Some (EvIssue (c, n, height s, Z.of_nat k) p (c_cons rc) (fee_of s rc p))
+           /\ get (c, n, height s, Z.of_nat k) (reqs (initiate_requests s c provs))
+              = Some (new_req s rc p).
+Proof. exact initiate_requests_event_index. Qed.
+Print Assumptions C18_initiate_requests_event_index.
+
+(* the new-batch handler on a state satisfying the invariant, issuing branch:
+   the log grows by [EvBatchStart c n h (len E) :: evs ++ debit], the k-th issue event
+   (in issue order) carries the id (c, n, h, k) and the k-th eligible provider, and the
+   record stored under that id is the request to that provider *)
+Theorem C18_reqid_event_index :
+  forall (cfg : Params) (s : State) (c : CtxId),
+    wf_cfg cfg -> Inv cfg s -> In (height s, c) (newq s) -> height s < HEIGHT_BOUND ->
+    exists rc : Ctx, get c (ctxs s) = Some rc /\
+      let E := filter_providers s rc (c_provs rc) in
+      let n := c_counter rc + 1 in
+      (c_state rc = Running -> d5 rc = false -> 0 < len E -> c_thr rc <= len E ->
+       c_super rc = true \/ sum_prices E <= bal s (User (c_cons rc)) ->
+       exists evs : list Event,
+         log (new_one cfg s c)
+         = EvBatchStart c n (height s) (len E) :: evs
+           ++ (if c_super rc then [] else [EvDebit c (c_cons rc) (sum_prices E)]) ++ log s
+         /\ length evs = length E
+         /\ forall (k : nat) (p price : Z), nth_error E k = Some (p, price) ->
+              let fee := if c_super rc then 0 else price in
+              nth_error (rev evs) k = Some (EvIssue (c, n, height s, Z.of_nat k) p (c_cons rc) fee)
+              /\ get (c, n, height s, Z.of_nat k) (reqs (new_one cfg s c))
+                 = Some (mkReq p fee (height s + c_timeout rc) true)).
+Proof. exact reqid_event_index. Qed.
+Print Assumptions C18_reqid_event_index.
+
+(* on the reachable example state of Proofs/StepSpecs_batch.v (ExB: context c1 = (1001, 0),
+   providers 7 and 11 eligible at prices 10 and 30, consumer 50) *)
+Theorem C18_reqid_event_index_ex :
+  ExB.hyps ExB.s_a ExB.c1
+  /\ log (new_one ExB.cfg ExB.s_a ExB.c1)
+     = EvBatchStart ExB.c1 1 1 2
+       :: [EvIssue (ExB.c1, 1, 1, 1) 11 50 30; EvIssue (ExB.c1, 1, 1, 0) 7 50 10]
+       ++ [EvDebit ExB.c1 50 40] ++ log ExB.s_a
+  /\ get (ExB.c1, 1, 1, 0) (reqs (new_one ExB.cfg ExB.s_a ExB.c1)) = Some (mkReq 7 10 21 true)
+  /\ get (ExB.c1, 1, 1, 1) (reqs (new_one ExB.cfg ExB.s_a ExB.c1)) = Some (mkReq 11 30 21 true).
+Proof. exact ExIdx.reqid_event_index_ex. Qed.
+Print Assumptions C18_reqid_event_index_ex.
+
+(* ------------------------------------------------------------------ *)
+(* facet 6: the tuple identifiers of the state machine encode injectively.
+   [hb] : the 32 bytes of a transaction hash given as an integer (CtxId = hash, msg index);
+   hash_ok a = 0 <= a < 2^256;  cid_ok c = hash_ok (fst c) /\ is_int64 (snd c);
+   rid_ok r = cid_ok (rid_ctx r) /\ 0 <= rid_batch r < 2^64 /\ is_int64 (rid_height r)
+              /\ is_int16 (rid_index r).
+   Which of these ranges hold in reachable states: Proofs/GapC18Trace.v, below. *)
+
+Theorem C18_enc_ctx_inj :
+  forall hb : Z -> bytes,
+    (forall a : Z, hash_ok a -> length (hb a) = 32%nat) ->
+    (forall a b : Z, hash_ok a -> hash_ok b -> hb a = hb b -> a = b) ->
+    forall c c' : CtxId, cid_ok c -> cid_ok c' -> enc_ctx hb c = enc_ctx hb c' -> c = c'.
+Proof. exact enc_ctx_inj. Qed.
+Print Assumptions C18_enc_ctx_inj.
+
+Theorem C18_enc_rid_inj :
+  forall hb : Z -> bytes,
+    (forall a : Z, hash_ok a -> length (hb a) = 32%nat) ->
+    (forall a b : Z, hash_ok a -> hash_ok b -> hb a = hb b -> a = b) ->
+    forall r r' : ReqId, rid_ok r -> rid_ok r' -> enc_rid hb r = enc_rid hb r' -> r = r'.
+Proof. exact enc_rid_inj. Qed.
+Print Assumptions C18_enc_rid_inj.
+
+Theorem C18_enc_rid_len :
+  forall hb : Z -> bytes,
+    (forall a : Z, hash_ok a -> length (hb a) = 32%nat) ->
+    forall r : ReqId, rid_ok r -> length (enc_rid hb r) = 58%nat.
+Proof. exact enc_rid_len. Qed.
+Print Assumptions C18_enc_rid_len.
+
+Theorem C18_enc_rid_split :
+  forall hb : Z -> bytes,
+    (forall a : Z, hash_ok a -> length (hb a) = 32%nat) ->
+    (forall a b : Z, hash_ok a -> hash_ok b -> hb a = hb b -> a = b) ->
+    forall r : ReqId, rid_ok r ->
+      split_request_id (enc_rid hb r)
+      = Some (enc_ctx hb (rid_ctx r), Z.to_N (rid_batch r), rid_height r, rid_index r).
+Proof. exact enc_rid_split. Qed.
+Print Assumptions C18_enc_rid_split.
+
+Theorem C18_enc_rid_key_inj :
+  forall hb : Z -> bytes,
+    (forall a : Z, hash_ok a -> length (hb a) = 32%nat) ->
+    (forall a b : Z, hash_ok a -> hash_ok b -> hb a = hb b -> a = b) ->
+    forall r r' : ReqId, rid_ok r -> rid_ok r' ->
+      GetRequestKey (enc_rid hb r) = GetRequestKey (enc_rid hb r') -> r = r'.
+Proof. exact enc_rid_key_inj. Qed.
+Print Assumptions C18_enc_rid_key_inj.
+
+(* with the hash written as 32 big-endian bytes ([hash_bytes a = be 32 (Z.to_N a)]) both
+   hypotheses hold *)
+Theorem C18_enc_rid_inj_hash :
+  forall r r' : ReqId, rid_ok r -> rid_ok r' ->
+    enc_rid hash_bytes r = enc_rid hash_bytes r' -> r = r'.
+Proof. exact enc_rid_inj_hash. Qed.
+Print Assumptions C18_enc_rid_inj_hash.
